@@ -80,12 +80,13 @@ pub fn usage(c: &HCase, st: &mut Stats) -> Result<(), String> {
                 offered: c.offered,
                 capacity: 64,
                 policy: c.policy,
+                repeat: 0,
                 ops: vec![c14::BOp::Flush, c14::BOp::Write { s: c14::Sect::In(3), n: 1, seed: 9 }, c14::BOp::Read { s: c14::Sect::In(3), n: 1 }, c14::BOp::DeviceId],
             },
             st,
         ),
         D::Console => c15::check(
-            &c15::KCase { kind: c.kind, offered: c.offered, policy: c.policy, chunks: vec![5, 3], ops: vec![c15::KOp::Size, c15::KOp::Emerg(0x41), c15::KOp::Send(0x42), c15::KOp::SendBytes(7), c15::KOp::Deliver, c15::KOp::Read(8)] },
+            &c15::KCase { kind: c.kind, offered: c.offered, policy: c.policy, chunks: vec![5, 3, 4, 2], ops: vec![c15::KOp::Size, c15::KOp::Emerg(0x41), c15::KOp::Send(0x42), c15::KOp::SendBytes(7), c15::KOp::Deliver, c15::KOp::Read(8), c15::KOp::Deliver, c15::KOp::FillConsume(65535), c15::KOp::Read(2), c15::KOp::Fmt(1, 0x1234), c15::KOp::Recv(true)] },
             st,
         ),
         D::Gpu => c20::check(
@@ -110,6 +111,7 @@ pub fn usage(c: &HCase, st: &mut Stats) -> Result<(), String> {
                 nsel: 1,
                 buf_len: 2048,
                 big: false,
+                repeat: 0,
                 ops: vec![c16::NOp::Send(60), c16::NOp::Send(0), c16::NOp::RxBegin, c16::NOp::Inject { pick: 0, len: 900 }, c16::NOp::RxFinish, c16::NOp::Receive, c16::NOp::Recycle(0), c16::NOp::TxBegin(100), c16::NOp::TxFinish(0)],
             },
             st,
